@@ -291,3 +291,92 @@ def nf_file(tr):
         names.append(nm)
     txt = OP_HDR + '\n' + '\n'.join(body) + 'End Obl.\n' + '\n'.join('Print Assumptions %s.' % n for n in names) + '\n'
     return names, txt
+
+
+# ---- source vectors of the two-port models -------------------------------------------------
+SRC_REL = {'A': 'relAs', 'G': 'relGs', 'H': 'relHs', 'Y': 'relYs', 'Z': 'relZs'}
+SRC_OWN = {'B': ('V2b', 'I2b'), 'A': ('V1a', 'I1a'), 'G': ('I1g', 'V2g'), 'H': ('V1h', 'I2h'), 'Y': ('I1y', 'I2y'), 'Z': ('V1z', 'V2z')}
+# existence conditions of the target representation (entries of the source matrix)
+SRC_HYP_FROM_B = {'A': ['x11 * x22 - x12 * x21 <> 0'], 'G': ['x22 <> 0'], 'H': ['x11 <> 0'], 'Y': ['x12 <> 0'], 'Z': ['x21 <> 0']}
+SRC_HYP_TO_B = {'A': ['x11 * x22 - x12 * x21 <> 0'], 'G': ['x12 <> 0'], 'H': ['x12 <> 0'], 'Y': ['x12 <> 0'], 'Z': ['x12 <> 0']}
+SRC_HDR = SEC_HDR.replace('Ltac unf := sec_spec_unfold; sec_unfold; tp_unfold; sec_unfold.',
+                          'Ltac unf := sec_spec_unfold; sec_unfold; gen_unfold; tp_unfold; sec_unfold.')
+
+
+def srcconv_files(st):
+    """one obligation per (model class, target representation): the affine port relation with the
+    translated source conversion is the same relation.  Returns {file: (names, text)}"""
+    files = {}
+    hdr = SRC_HDR + '\nSection Obl.\nVariable K : fld.\nAdd Field KFobl : (fth K).\n'
+    M = '(Mat x11 x12 x21 x22)'
+
+    def emit(fname, name, hyps, lhs, rhs, comment):
+        hs = ''.join('%s -> ' % h for h in hyps)
+        files[fname] = ([name], hdr + '''
+(* %s *)
+Theorem %s (Z0 x11 x12 x21 x22 s1 s2 : K) (v : port K) : %s(%s v <-> %s v).
+Proof.
+  intros%s. destruct v as [v1 i1 v2 i2]. unf. split; intros [E1 E2]; split; rsolve.
+Qed.
+End Obl.
+Print Assumptions %s.
+''' % (comment, name, hs, lhs, rhs, ''.join(' Hn%d' % i for i in range(len(hyps))), name))
+    # B-model (and the generic TwoPort definitions) -> every other representation
+    for owner_set, tag in ((None, 'B'), ('TwoPort', 'TwoPort')):
+        for X in 'AGHYZ':
+            p1, p2 = SRC_OWN[X]
+            if owner_set is None:
+                o1, o2 = st.src_B.get(p1), st.src_B.get(p2)
+            else:
+                o1 = o2 = owner_set
+                if st.src_B.get(p1) == owner_set and st.src_B.get(p2) == owner_set:
+                    continue      # same definitions as the B-model statement
+            if (o1, 'B', p1) not in st.srcconv or (o2, 'B', p2) not in st.srcconv:
+                continue
+            name = 'src_conv_%s_%s' % (tag, X)
+            emit('C07_src_%s_%s.v' % (tag, X), name, SRC_HYP_FROM_B[X],
+                 'relBs (TPM %s s1 s2)' % M,
+                 '%s (B_%sparams Z0 %s) (src_%s_%s Z0 %s s1 s2) (src_%s_%s Z0 %s s1 s2)' % (SRC_REL[X], X, M, o1, p1, M, o2, p2, M),
+                 '%s.%s / %s.%s: the %s-model sources of a two-port given by its B model' % (o1, p1, o2, p2, X))
+    # every other model class -> its B model
+    for X in 'AGHYZ':
+        owner = 'TwoPort%sModel' % X
+        if (owner, X, 'V2b') in st.srcconv and (owner, X, 'I2b') in st.srcconv:
+            name = 'src_conv_%s_B' % X
+            emit('C07_src_%s_B.v' % X, name, SRC_HYP_TO_B[X],
+                 '%s %s s1 s2' % (SRC_REL[X], M),
+                 'relBs (TPM (%s_Bparams Z0 %s) (src_%s_V2b Z0 %s s1 s2) (src_%s_I2b Z0 %s s1 s2))' % (X, M, owner, M, owner, M),
+                 '%s.V2b / I2b: the B-model sources of a two-port given by its %s model' % (owner, X))
+    if ('TwoPortZModel', 'Z', 'I1y') in st.srcconv and ('TwoPortZModel', 'Z', 'I2y') in st.srcconv:
+        emit('C07_src_Z_Y.v', 'src_conv_Z_Y', ['x11 * x22 - x12 * x21 <> 0'], 'relZs %s s1 s2' % M,
+             'relYs (Z_Yparams Z0 %s) (src_TwoPortZModel_I1y Z0 %s s1 s2) (src_TwoPortZModel_I2y Z0 %s s1 s2)' % (M, M, M),
+             'TwoPortZModel.I1y / I2y')
+    # elementary two-ports with the sources of their one-port
+    for cname, spec in (('Series', 'series_src_rel (opZ o) (opVoc o)'), ('SeriesAlt', 'series_src_rel (opZ o) (opVoc o)'),
+                        ('Shunt', 'shunt_src_rel (opY o) (opIsc o)')):
+        if cname in st.elems:
+            nm = 'section_src_%s' % cname
+            files['C07_src_%s.v' % cname] = ([nm], hdr + '''
+(* %s(OP): B matrix AND source vector (V2b, I2b) describe the one-port placed in the section
+   (Thevenin data Z, Voc / Norton data Y, Isc; + terminal at port 1 / on the upper rail) *)
+Theorem %s (Z0 : K) (o : opd K) (v : port K) : relBs (tp_%s Z0 o) v <-> %s v.
+Proof. destruct v as [v1 i1 v2 i2], o as [z y voc isc]. unf. split; intros [E1 E2]; split; rsolve. Qed.
+End Obl.
+Print Assumptions %s.
+''' % (cname, nm, cname, spec, nm))
+    conn = {'Par2': ('Y', 'par_conn', 'par2_src_sem'), 'Ser2': ('Z', 'ser_conn', 'ser2_src_sem'),
+            'Hybrid2': ('H', 'hyb_conn', 'hybrid2_src_sem'), 'InverseHybrid2': ('G', 'ihyb_conn', 'inverse_hybrid2_src_sem')}
+    for cname, d in st.sums.items():
+        k0, cn, lem = conn[cname]
+        nm = 'section_src_%s' % cname
+        if d['kind'] != k0 or not d.get('src_ok'):
+            body = '(* %s.__init__ does not accumulate the two %s-model sources of its arguments by += *)\nTheorem %s : False.\nProof. fail. Qed.\n' % (cname, k0, nm)
+        else:
+            body = '''
+(* %s(a, b) adds the %s matrices and the %s-model source vectors of its arguments: the %s connection of the affine relations *)
+Theorem %s (a b : mat K) (a1 a2 b1 b2 : K) (v : port K) :
+  %s (madd a b) (a1 + b1) (a2 + b2) v <-> %s (%s a a1 a2) (%s b b1 b2) v.
+Proof. symmetry. apply %s. Qed.
+''' % (cname, k0, k0, cn, nm, SRC_REL[k0], cn, SRC_REL[k0], SRC_REL[k0], lem)
+        files['C07_src_%s.v' % cname] = ([nm], hdr + body + 'End Obl.\nPrint Assumptions %s.\n' % nm)
+    return files
